@@ -423,6 +423,15 @@ def p_list1(term):
 class C10Executor(Executor):
     """Pack-local models of the abstract 7z header view (all ASSUMED views are listed in ASSUMED_MODELS)."""
 
+    def add_vc(self, kind, label, pc, goal, note="", loc=""):
+        """conjunctive goals are split into one VC per conjunct (small queries; the conjunction went `unknown` under load)"""
+        g = goal.t if isinstance(goal, VBool) else goal
+        if z3.is_expr(g) and z3.is_and(g) and g.num_args() > 1:
+            for ch in g.children():
+                self.add_vc(kind, label, pc, ch, note, loc)
+            return
+        super().add_vc(kind, label, pc, goal, note, loc)
+
     # -- `k in self._folder_to_files`, `self._folder_to_files[k]`
     def contains(self, st, container, item, node):
         if isinstance(container, VExt) and container.sort == "FolderMap" and isinstance(item, VInt):
@@ -511,8 +520,8 @@ class C10Executor(Executor):
     def b_range(self, st, args, kwargs, node):
         if len(args) == 1 and isinstance(args[0], VInt) and args[0].const() is None and getattr(self.contract, "bounded", ""):
             k = self.concretize(st, args[0])
-            if k is not None and 0 <= k <= 64:
-                return [(st, VTuple([VInt(i) for i in range(k)]))]
+            if k is not None and k <= 64:
+                return [(st, VTuple([VInt(i) for i in range(max(k, 0))]))]
         return super().b_range(st, args, kwargs, node)
 
     def b_reversed(self, st, args, kwargs, node):
@@ -774,6 +783,12 @@ def layout_contracts():
         arch = ea_archive(lc)
         i = lc.i
         conj = []
+        if lc.extra.get("phase") == "preserve":
+            wt = getattr(lc.ex, "witness_terms", None)
+            if isinstance(wt, dict):
+                wt.setdefault("folder_idx", i - 1)
+                wt.setdefault("sum_of_pack_sizes_before_folder", PS(i - 1))
+                wt.setdefault("first_pack_size", PSZ(z3.IntVal(0)))
         n_new = len(events(lc.st, "extracted")) - len(events(lc.entry, "extracted"))
         if n_new:
             new = new_events(lc, "extracted")
@@ -1699,6 +1714,133 @@ def parser_contracts():
         raises=[Raises(BAD, when=pk_raise, label="bad end marker / short stream")],
         bounded=f"numPackStreams in 0..{PMAX}; every byte of the stream symbolic (all NUMBER widths, with / without sizes, all digest layouts)",
         note="PackInfo grammar of 7zFormat.txt; pack position made absolute by the 32-byte signature header"))
+    # ---- _parse_substreams_info (BOUNDED shapes)
+    SHAPES = [(), (1,), (2,), (1, 1), (2, 1), (1, 2)]
+
+    def p_folder_objs(m):
+        def mk(ex, st, name):
+            items = []
+            for k in range(m):
+                us = VRef(st.alloc(HeapObj("list", [VInt(z3.BitVec(f"unpack_size_{k}", 64))], fresh=False), ex.refs))
+                items.append(VRef(st.alloc(HeapObj("obj", {"coders": VUnk("coders"), "unpack_sizes": us, "crc": NONE, "num_streams": VInt(1)},
+                                                   "Folder", fresh=False), ex.refs)))
+            return VRef(st.alloc(HeapObj("list", items, fresh=False), ex.refs))
+        return Maker(mk, desc=f"[{m} Folder objects, one coder output size each, no folder CRC]")
+
+    def ss_shape_cond(shape):
+        """alternative: the stream encodes this shape (NumUnpackStream present with these counts, or absent = all 1)"""
+        def cond(s, pos):
+            present = SB(s, pos) == bv(0x0D)
+            q = pos + 1
+            eqs = []
+            for n in shape:
+                eqs.append(NUMV(s, q) == bv(n, 64))
+                q = q + NUML(s, q)
+            absent_ok = z3.BoolVal(all(n == 1 for n in shape))
+            return z3.If(present, z3.And(eqs + [z3.BoolVal(True)]), absent_ok)
+        return cond
+
+    def spec_substreams(s, p, shape, unpack):
+        """SubStreamsInfo ::= [0x0D n_k:NUMBER per folder] [0x09 (n_k - 1) sizes per folder] [0x0A Digests(sum n_k)] 0x00
+        -> [(cond, ('ok', [n_k], [[sizes of folder k]], end) | ('bad', end))]; the last size of a folder is its unpack size minus the others"""
+        cases = []
+        for present in ((True, False) if all(n == 1 for n in shape) else (True,)):
+            c0 = SB(s, p) == bv(0x0D) if present else SB(s, p) != bv(0x0D)
+            q = p + 1
+            if present:
+                for _n in shape:
+                    q = q + NUML(s, q)
+                t0, q0 = SB(s, q), q + 1
+            else:
+                t0, q0 = SB(s, p), p + 1
+            for has_size in (True, False):
+                if has_size:
+                    c1, qq, per = t0 == bv(9), q0, []
+                    for k, n in enumerate(shape):
+                        ex_ = []
+                        for _ in range(n - 1):
+                            ex_.append(z3.BV2Int(NUMV(s, qq), False))
+                            qq = qq + NUML(s, qq)
+                        per.append(ex_ + [z3.BV2Int(unpack[k], False) - sum(ex_, z3.IntVal(0))])
+                    t1, q1 = SB(s, qq), qq + 1
+                else:
+                    if any(n != 1 for n in shape):
+                        # the format omits the Size section only when every folder has exactly one sub-stream
+                        c1, per, t1, q1 = t0 != bv(9), None, t0, q0
+                    else:
+                        c1, per, t1, q1 = t0 != bv(9), [[z3.BV2Int(unpack[k], False)] for k in range(len(shape))], t0, q0
+                total = sum(shape)
+                tails = [(t1 != bv(0x0A), t1, q1)] + [(z3.And(t1 == bv(0x0A), dc), SB(s, dq), dq + 1) for dc, dq in digests_spec(s, q1, total)]
+                for c2, t2, q2 in tails:
+                    cases.append((z3.And(c0, c1, c2, t2 == bv(0)), ("ok", list(shape), per, q2)))
+                    cases.append((z3.And(c0, c1, c2, t2 != bv(0)), ("bad", q2)))
+        return cases
+
+    def ss_bind(c):
+        s_, p = S(c), pos0(c)
+        for shape in SHAPES:
+            folders = c.ex.concrete_items(c.entry, c.entry.obj(c.args["self"].ref).data["_folders"])
+            if len(folders) != len(shape):
+                continue
+            if not c.ex.feasible(c.st.pc, z3.Not(ss_shape_cond(shape)(s_, p))):
+                c.entry.ghost["bounded_shape"] = shape
+                c.st.ghost["bounded_shape"] = shape
+                break
+        return req_stream(c)
+
+    def ss_cases(c):
+        shape = c.entry.ghost.get("bounded_shape")
+        folders = c.ex.concrete_items(c.entry, c.entry.obj(c.args["self"].ref).data["_folders"])
+        unpack = [c.entry.obj(c.entry.obj(f.ref).data["unpack_sizes"].ref).data[0].t for f in folders]
+        return spec_substreams(S(c), pos0(c), shape, unpack), folders
+
+    def ss_post(c):
+        cases, folders = ss_cases(c)
+        d = c.st.obj(c.args["self"].ref).data
+        fs = c.ex.concrete_items(c.st, d["_file_sizes"]) if isinstance(d["_file_sizes"], VRef) else None
+        goals = []
+        for cond, oc in cases:
+            if oc[0] == "bad":
+                goals.append(z3.Not(cond))
+                continue
+            _ok, ns, per, end = oc
+            if per is None:
+                continue       # Size section missing although some folder has several sub-streams: malformed, unconstrained
+            flat = [x for sizes in per for x in sizes]
+            positive = z3.And([x > 0 for x in flat] + [z3.BoolVal(True)])     # writers' invariant: stream-bearing files are not empty
+            g = z3.BoolVal(False)
+            if fs is not None and len(fs) == len(flat):
+                g = z3.And([pos1(c) == end, end <= SLEN(S(c))] + [ops.int_term(a) == b for a, b in zip(fs, flat)] +
+                           [ops.int_term(c.st.obj(f.ref).data["num_streams"]) == n for f, n in zip(folders, ns)])
+            elif fs is not None:
+                g = z3.Not(positive)      # a different number of sizes is only admissible outside the writers' invariant
+            goals.append(z3.Implies(z3.And(cond, positive), g))
+        return z3.And(goals + [z3.BoolVal(True)])
+
+    def ss_raise(c):
+        cases, _f = ss_cases(c)
+        L = SLEN(S(c))
+        alts = [pos0(c) + 1 > L]
+        for cond, oc in cases:
+            alts.append(cond if oc[0] == "bad" else z3.And(cond, oc[3] > L))
+        return z3.Or(alts)
+
+    def ss_self():
+        def mk(ex, st, name):
+            out_ = []
+            for shape in SHAPES:
+                m = p_reader_cases({"_folders": p_folder_objs(len(shape)), "_file_sizes": p_empty_list()}, [ss_shape_cond(shape)])
+                out_.extend(m.make(ex, st, name))
+            return out_
+        return Maker(mk, desc=f"SevenZipReader with 0..2 folders, sub-stream counts {SHAPES}")
+
+    out.append(FnContract(
+        target=f"{RD}._parse_substreams_info", params=[("self", ss_self())],
+        requires=ss_bind, modifies=("self",),
+        ensures=[("num_streams-and-flat-size-list-equal-the-SubStreamsInfo-grammar", ss_post)],
+        raises=[Raises(BAD, when=ss_raise, label="bad end marker / short stream")],
+        bounded=f"folder / sub-stream shapes {SHAPES} (one coder output size per folder, no folder CRC); every stream byte symbolic",
+        note="the last size of a folder is its unpack size minus the explicit ones; sizes assumed positive (writers' invariant)"))
     return out
 
 
@@ -1882,8 +2024,39 @@ def known_findings(kf, violations, repo, tier):
 EXECUTOR = MemberExecutor
 EXECUTOR_KW = {}
 EXTRA = [table_check]
-TRUSTED = []
-ASSUMED_MODELS = ["io.BytesIO.read/seek/tell on the header stream (bytes [pos, min(pos+n, len)), position advanced)",
-                  "struct.unpack('<B'/'<H'/'<I'/'<Q'): little-endian unsigned"]
-ASSUMPTIONS = ["PY-INT with exact bit-vector encoding"]
+TRUSTED = [
+    "decode (copy = identity, LZMA / LZMA2 via liblzma) is uninterpreted: _apply_decoder is an assumed contract; its results are "
+    "compared natively by replay/C10.py for copy / LZMA / LZMA2 folders",
+    "zipfile.ZipFile.read(info) and tarfile extractfile(member).read() return the member's bytes; infolist()/getmembers() present the "
+    "container's members in container order (archives produced by reference writers: container-level corruption such as a bad "
+    "CRC is outside the quantifier -- observed natively: a ZIP member with a bad CRC aborts the archive after the earlier members)",
+    "the member extractors (router.get_extractor) are uninterpreted: 'identical to direct extraction' = same extractor, same bytes, same path",
+    "file system: a file written under the private temp dir is read back with the bytes written (member names distinct, no symlinks)",
+    "7z NUMBER / BitVector / PackInfo / SubStreamsInfo / folder-layout specification transcribed from 7zFormat.txt in contracts/C10.py "
+    "(NUMBER guarded by known-answer lemmas each run)",
+]
+ASSUMED_MODELS = [
+    "io.BytesIO.read/seek/tell on the header stream and on the archive file (bytes [pos, min(pos+n, len)), position advanced; SEEK_END = length)",
+    "struct.unpack('<B'/'<H'/'<I'/'<Q'): little-endian unsigned", "builtin sum over an int sequence view = difference of prefix sums",
+    "open(path, 'wb') / file.write / os.makedirs raise only the OSError family; os.path.dirname / basename uninterpreted",
+    "zipfile.ZipFile (constructor, infolist, read, context manager), ZipInfo.is_dir()/flag_bits/filename/file_size",
+    "tarfile.open, TarFile.getmembers/extractfile, TarInfo.isreg()/name/size", "SevenZipFile (needs_password, list, extractall) as seen from archive_extractor",
+    "tempfile.TemporaryDirectory (fresh private path)", "os.path.exists", "time.perf_counter",
+    "sevenzip._safe_join (C09), archive_extractor._should_skip_file (C09), _get_file_extractor_cached (C07/C15), SevenZipReader._apply_decoder (Trust)",
+]
+ASSUMPTIONS = [
+    "PY-INT with exact bit-vector encoding", "PY-GEN", "EXC-ANY for un-modelled library calls", "logger calls dropped (PY-LOG)",
+    "PY-LIST-ORDER: a list built by `append` inside a loop is, after the loop, the sequence of appended values in iteration order (the "
+    "engine has no symbolic-length mutable lists): per-iteration obligations state WHAT is appended in iteration i; the list used by the "
+    "following loop is introduced as that sequence (worklists of the ZIP / 7z member loops, self._files and _folder_to_files[k] in "
+    "_build_file_list, where position j in _folder_to_files[k] = number of earlier appends to k = r - cum(k))",
+    "writers' invariants (7-Zip / py7zr / the 7z format description), preconditions of the 7z layout contracts: every coder chain this "
+    "reader supports consumes ONE packed stream (first(k) = k, numPackStreams = numFolders); pack sizes > 0; every folder has >= 1 "
+    "sub-stream; a stream-bearing file has size > 0 (zero-length files are emptyStream entries); a directory attribute implies emptyStream; "
+    "SubStreamsInfo lists one size per stream-bearing file; the PackInfo section is present when folders exist",
+    "the end-to-end statement (read_archive == direct extraction per member, in order) is the COMPOSITION of the layer contracts "
+    "(a)-(f); the composition itself is argued in the pack's docstring, not discharged by the solver",
+    "a ZIP/TAR/7z member above max_memory_size / MAX_ARCHIVE_FILE_SIZE is skipped (C12's limits); members are distinct names",
+    "_parse_unpack_info / _parse_folder / _parse_files_info / _parse_header are NOT under contract (native differential replay only)",
+]
 BOUNDED = []
